@@ -14,7 +14,7 @@ import json
 import os
 
 from . import common, explore, srv, srv_alpha, srv_check, tlc
-from . import cli, cli_alpha
+from . import cli, cli_alpha, simple
 from .tla_lit import lit
 
 BASE_INV = ['TypeOK']
@@ -64,7 +64,7 @@ PLAN = {
 }
 
 WITNESS = {'D6': 'D6_NotObservable', 'D3': 'D3_NotTaken',
-           'D5': 'D5_NotObservable'}
+           'D5': 'D5_NotObservable', 'D9': 'D9_NotObservable'}
 
 PLAN.update({
     'C08': {
@@ -73,6 +73,15 @@ PLAN.update({
                 'C08_BadNamespace', 'C08_HandlersOnce'],
         'quick': ['cstate_quick'],
         'thorough': ['cstate_fn', 'cstate_class'],
+    },
+    'C19': {
+        'fam': 'simple',
+        'inv': ['C19_Order', 'C19_DisconnectedOnlyAfterFinal',
+                'C19_NoErrorWhileEventAvailable',
+                'C19_EmitWaitsOutReconnection'],
+        'quick': ['sc_quick', 'sc_drop', 'sc_final', 'sc_emit',
+                  'sc_emit_final'],
+        'thorough': list(simple.CONFIGS),
     },
     'C09': {
         'fam': 'client',
@@ -91,7 +100,31 @@ def _cli_consts(cfg):
             'Dev': set(cfg.get('dev', []))}
 
 
+class _SimpleAlpha:
+    @staticmethod
+    def sched(cfg):
+        return simple.ALPHABET
+
+    @staticmethod
+    def enabled(cfg):
+        return simple.enabled
+
+
+def _simple_consts(cfg):
+    return {'NArr': cfg['arrivals'],
+            'App': [{'op': o[0], 'to': bool(o[1]) if len(o) > 1 else False}
+                    for o in cfg['app']],
+            'Conn': list(cfg['conn']), 'Dev': set(cfg.get('dev', []))}
+
+
 FAMILIES = {
+    'simple': dict(spec='SimpleClient', graph='SimpleClientGraph',
+                   configs={k: dict(v, alpha='sched', dev=['D9'])
+                            for k, v in simple.CONFIGS.items()},
+                   alpha=_SimpleAlpha, consts=_simple_consts,
+                   adapter=lambda c: simple.SimpleAdapter(c),
+                   no_alphabet=True, variants=('threaded',),
+                   base_inv=[]),
     'server': dict(spec='SioServer', graph='SioServerGraph',
                    configs=srv_alpha.CONFIGS, alpha=srv_alpha,
                    consts=srv_check.consts,
@@ -112,12 +145,13 @@ def mc_module(fam, name, extends, cfg, alphabet):
     lines = ['---- MODULE %s ----' % name, 'EXTENDS ' + extends, '']
     for k, v in c.items():
         lines.append('c_%s == %s' % (k, lit(v)))
-    lines.append('c_Alphabet == <<')
-    lines.append(',\n'.join('  ' + lit(a) for a in alphabet))
-    lines.append('>>')
+    if not fam.get('no_alphabet'):
+        lines.append('c_Alphabet == <<')
+        lines.append(',\n'.join('  ' + lit(a) for a in alphabet))
+        lines.append('>>')
     lines.append('====')
     cfgl = ['CONSTANTS']
-    for k in list(c) + ['Alphabet']:
+    for k in list(c) + ([] if fam.get('no_alphabet') else ['Alphabet']):
         cfgl.append('  %s <- c_%s' % (k, k))
     return '\n'.join(lines), '\n'.join(cfgl) + '\n'
 
@@ -171,9 +205,11 @@ def _edge_no(text):
     return int(m.group(1)) if m else None
 
 
-def check_config(v, name, invariants, dev, variants=('threaded', 'asyncio')):
+def check_config(v, name, invariants, dev, variants=None):
     """One configuration, both implementations.  Returns True when clean."""
     fam = _fam(v.pid)
+    variants = variants or fam.get('variants', ('threaded', 'asyncio'))
+    base_inv = fam.get('base_inv', BASE_INV)
     fam_name = PLAN[v.pid].get('fam', 'server')
     cfg = _cfg_for(fam, name, dev)
     wd = os.path.join(common.WORK, v.pid, name)
@@ -182,7 +218,7 @@ def check_config(v, name, invariants, dev, variants=('threaded', 'asyncio')):
     en = fam['alpha'].enabled(cfg)
     clean = True
     with cf.ThreadPoolExecutor(4) as ex:
-        f1 = ex.submit(_tlc_g1, fam, wd, cfg, alphabet, BASE_INV + invariants, 6)
+        f1 = ex.submit(_tlc_g1, fam, wd, cfg, alphabet, base_inv + invariants, 6)
         f3 = ex.submit(_tlc_g1, fam, wd, cfg, alphabet, [], 4, True, 'MCV')
         graphs = {}
         for var in variants:
@@ -304,7 +340,8 @@ def run(pid, tier):
             cfg0 = _cfg_for(fam, name, [])
             alphabet = getattr(fam['alpha'], cfg0['alpha'])(cfg0)
             wd = os.path.join(common.WORK, pid, name)
-            r0 = _tlc_g1(fam, wd, cfg0, alphabet, BASE_INV + plan['inv'], 12,
+            r0 = _tlc_g1(fam, wd, cfg0, alphabet,
+                         fam.get('base_inv', BASE_INV) + plan['inv'], 12,
                          tag='MCD')
             v.log('  [%s] design (Dev={}): %d states, %s' % (
                 name, r0.distinct, 'ok' if r0.ok else r0.violation))
@@ -323,8 +360,8 @@ def run(pid, tier):
                     if rw.violation == WITNESS[d]:
                         v.known_finding(k['text'])
                     else:
-                        v.log('  note: known finding %s is no longer '
-                              'reachable in %s' % (d, name))
+                        v.log('  (known finding %s is not exercised by '
+                              'configuration %s)' % (d, name))
     v.cov['rule'] = ('every action of the configuration alphabet from every '
                      'reachable abstract state of the real threaded and asyncio '
                      'classes; distinct = distinct abstract states')
